@@ -152,10 +152,12 @@ func targets() []*target {
 				"*Entry.Error": {tail: "PoOther"}, "*Entry.Info": {tail: "PoOther"}, "*Entry.Debug": {tail: "PoOther"},
 				"*Entry.Trace": {tail: "PoOther"}, "*Entry.Fatal": {tail: "PoOther"}, "*Entry.Panic": {tail: "PoOther"},
 				"*Entry.Print": {tail: "PoOther"}, "*Entry.Println": {tail: "PoOther"},
+				// the logger's own writer set asked for another level (an oracle nothing is known about)
+				"*dualWriter.Get": {pure: "f_writerGet %0"},
 			},
 			params: []string{"(asm_LevelSettable asm_logwr : member -> option wid)", "(fld_Writer : wid -> wid)", "(as_LevelSettable_of_io_Writer : wid -> option wid)",
 				"(as_LWs_of_LogWriter : logwriter -> option (list member))", "(as_LevelSettable_of_LogWriter : logwriter -> option wid)",
-				"(f_findWriter : Z -> logwriter)", "(wres : nat -> Z * bool)", "(lvl : Z)", "(msg : bytes)", "(tr_ : list wevent)", "(k_ : nat)"},
+				"(f_writerGet : Z -> list member)", "(f_findWriter : Z -> logwriter)", "(wres : nat -> Z * bool)", "(lvl : Z)", "(msg : bytes)", "(tr_ : list wevent)", "(k_ : nat)"},
 			result: "po_result", final: "(PoReturn tr_ k_)"},
 
 		// ---- level names (C17; C06 and C09 print them) ----
@@ -537,7 +539,7 @@ func targets() []*target {
 		bufT("WriteTo", "buf_write_to", []string{"(w : unit)", "(w_m : Z)", "(w_e : err)", "(tr_ : list bytes)"}, "bres (Z * err) (bstate * list bytes)", "", true),
 		// the io.Reader is a script (Model/Buffer.v rresp): an answer per call, delivered into the window it is handed,
 		// which must be s.buf[..:cap(s.buf)] (checked): the bytes land in the spare capacity of s.buf
-		bufT("ReadFrom", "buf_read_from", []string{"(f_isnil : gslice -> bool)", "(f_growSlice : gslice -> Z -> bres gslice unit)", "(r : unit)", "(script_ : list rresp)"},
+		bufT("ReadFrom", "buf_read_from", []string{"(f_isnil : gslice -> bool)", "(f_growSlice : gslice -> Z -> bres gslice unit)", "(f_errors_is : err -> err -> bool)", "(r : unit)", "(script_ : list rresp)"},
 			"bres (Z * err) (bstate * list rresp)", "", true),
 	}
 }
@@ -622,6 +624,8 @@ func bufT(fn, coq string, params []string, result, final string, eff bool) *targ
 					return "Read into something else than s.buf[..:cap(s.buf)]"
 				}}
 			t.nilTest = map[string]string{"err": "err_is_enil"}
+			// errors.Is is an oracle nothing is known about (it is NOT ==: it unwraps): using it is a different function
+			t.calls["errors.Is"] = callSpec{pure: "f_errors_is %0 %1"}
 		}
 		if fn == "grow" {
 			t.nilTest = map[string]string{"gslice": "f_isnil"}
